@@ -23,7 +23,7 @@ func init() {
 	Register("C21", &Info{
 		Run:   runC21,
 		Quick: 2500, Thor: 250000,
-		Rule: "a world = one fingerprint advertising compress_certificate (parrots by stratum, generated specs with each algorithm set) against the reference server (optionally requesting a client certificate, so that a CertificateRequest precedes it in the transcript), which sends its Certificate message as CompressedCertificate with an advertised algorithm (brotli, zlib, zstd) encoded by the real encoders at a drawn level, with a drawn flush/block structure (single block, flush every n bytes, stored blocks, several concatenated zstd frames) and a drawn chain (small ECDSA leaf, RSA leaf, a 16 kB leaf with 400 SANs) carrying a drawn OCSP staple; narrowing stratum: the hello is built, the advertised list is narrowed, the server answers with the dropped algorithm; fault stratum: declared uncompressed_length shorter or longer than the real one, stream truncated, byte flipped (at a drawn position, or directed into the staple where the stream carries it verbatim), trailing garbage appended; oracle: a valid encoding => the handshake completes, data echoes and PeerCertificates equal the chain the server compressed; an invalid one => the client aborts (never completes with any chain) and the server sees the bad_certificate alert; non-trivial = a CompressedCertificate message was processed by the client; distinct = (fingerprint, algorithm, encoder settings, chain, fault)",
+		Rule: "a world = one fingerprint advertising compress_certificate (parrots by stratum, generated specs with each algorithm set) against the reference server (optionally requesting a client certificate, so that a CertificateRequest precedes it in the transcript), which sends its Certificate message as CompressedCertificate with an advertised algorithm (brotli, zlib, zstd) encoded by the real encoders at a drawn level, with a drawn flush/block structure (single block, flush every n bytes, stored blocks, several concatenated zstd frames) and a drawn chain (small ECDSA leaf, RSA leaf, a 16 kB leaf with 400 SANs) carrying a drawn OCSP staple; narrowing stratum: the hello is built, the advertised list is narrowed (or the whole extension removed), the server answers with the dropped algorithm; fault stratum: declared uncompressed_length shorter or longer than the real one, stream truncated, byte flipped (at a drawn position, or directed into the staple where the stream carries it verbatim), trailing garbage appended; oracle: a valid encoding => the handshake completes, data echoes and PeerCertificates equal the chain the server compressed; an invalid one => the client aborts (never completes with any chain) and the server sees the bad_certificate alert; non-trivial = a CompressedCertificate message was processed by the client; distinct = (fingerprint, algorithm, encoder settings, chain, fault)",
 		Assumptions: []string{"'any valid compressed encoding' is sampled through the real encoders' levels, flush points and framing; hand-crafted exotic bit streams are not generated",
 			"trailing bytes after a complete compressed stream count as a decompressed-length mismatch only when they decode to additional output (declared length shorter than the actual output)"},
 		Real: []string{"utls client decompression path from /repo", "brotli / zlib / zstd libraries on both sides"},
@@ -32,7 +32,7 @@ func init() {
 	Register("C22", &Info{
 		Run:   runC22,
 		Quick: 7500, Thor: 250000,
-		Rule: "a world = one ALPS-capable fingerprint (parrots whose spec carries application_settings on either code point, generated specs) with a drawn Config.ApplicationSettings map against the reference server, which negotiates an ALPN protocol and answers with application_settings on the old (17513) or new (17613) code point with drawn server settings; client authentication requested or not (client with and without a certificate); strata: normal, server omits ALPN but sends ALPS, TLS 1.2 server that puts an application_settings extension into its ServerHello, code point different from the one the client offered; oracle: normal => handshake completes, ConnectionState.PeerApplicationSettings equals the server's bytes, the server received a client EncryptedExtensions message carrying exactly the settings configured for the negotiated protocol and verified the client Finished over a transcript including it; without ALPN or below TLS 1.3 => nothing is exposed (TLS 1.3 without ALPN: abort); non-trivial = ALPS extension in the server's EncryptedExtensions (or ServerHello); distinct = (fingerprint, code point, protocol, settings, stratum)",
+		Rule: "a world = one ALPS-capable fingerprint (parrots whose spec carries application_settings on either code point, generated specs) with a drawn Config.ApplicationSettings map (with PSK-capable parrots optionally as the resumed second connection of a history) against the reference server, which negotiates an ALPN protocol and answers with application_settings on the old (17513) or new (17613) code point with drawn server settings; client authentication requested or not (client with and without a certificate); strata: normal, server omits ALPN but sends ALPS, TLS 1.2 server that puts an application_settings extension into its ServerHello, code point different from the one the client offered; oracle: normal => handshake completes, ConnectionState.PeerApplicationSettings equals the server's bytes, the server received a client EncryptedExtensions message carrying exactly the settings configured for the negotiated protocol and verified the client Finished over a transcript including it; without ALPN or below TLS 1.3 => nothing is exposed (TLS 1.3 without ALPN: abort); non-trivial = ALPS extension in the server's EncryptedExtensions (or ServerHello); distinct = (fingerprint, code point, protocol, settings, stratum)",
 		Assumptions: []string{"'rejects application settings under TLS below 1.3' is read as 'never exposes or answers them'; an application_settings extension in a TLS 1.2 ServerHello is otherwise an unknown extension"},
 		Real:        []string{"utls client ALPS path from /repo"},
 		Stub:        []string{"reference server (sim/refsrv) with ALPS support", "transport, clock, crypto/rand"},
@@ -192,6 +192,12 @@ func runC21(c *Ctx) {
 	if len(adv) >= 2 && fault == "none" && ch.Bool(20, "narrow") {
 		narrowed = true
 	}
+	// ... or the whole compress_certificate extension is removed after the build (then any
+	// CompressedCertificate is unsolicited, whatever an earlier build of this UConn advertised)
+	removedExt := false
+	if !narrowed && fault == "none" && ch.Bool(8, "remove-ext") {
+		narrowed, removedExt = true, true
+	}
 	cfg.Byz.CertCompAlg = alg
 	msgLen := -1
 	cfg.Byz.CertCompress = func(a uint16, m []byte) []byte { msgLen = len(m); return compress(a, m) }
@@ -245,6 +251,16 @@ func runC21(c *Ctx) {
 			if err := u.BuildHandshakeState(); err != nil {
 				return err
 			}
+			if removedExt {
+				var keepExt []tls.TLSExtension
+				for _, e := range u.Extensions {
+					if _, ok := e.(*tls.UtlsCompressCertExtension); !ok {
+						keepExt = append(keepExt, e)
+					}
+				}
+				u.Extensions = keepExt
+				return nil
+			}
 			for _, e := range u.Extensions {
 				if cc, ok := e.(*tls.UtlsCompressCertExtension); ok {
 					var keep []tls.CertCompressionAlgo
@@ -258,7 +274,7 @@ func runC21(c *Ctx) {
 			}
 			return nil
 		}
-		c.R.Class += " narrowed"
+		c.R.Class += fmt.Sprintf(" narrowed removed=%v", removedExt)
 	}
 	o := RunConn(c, w, sp)
 	c.Finish(w, true)
@@ -279,6 +295,10 @@ func runC21(c *Ctx) {
 		}
 		if o.CDone {
 			c.Violate(fmt.Sprintf("unadvertised-algorithm-accepted alg=%d", alg), "%s: the wire hello advertises %v, the server compressed with %d and the handshake completed", c.R.Class, obs.CH[0].CertCompression, alg)
+			return
+		}
+		if removedExt {
+			c.Probe("rejected-unsolicited-compressed-certificate") // (an unexpected message: any fatal alert will do)
 			return
 		}
 		if o.SErr == nil || !strings.Contains(o.SErr.Error(), "bad certificate") {
@@ -475,12 +495,34 @@ func runC22(c *Ctx) {
 		peerSettings = st.PeerApplicationSettings
 		peerSet = true
 	}
+	// resumption: with a PSK-capable parrot the connection under test may be the second one of a
+	// history - the server accepts the PSK and negotiates application settings again; the client's
+	// EncryptedExtensions are owed on a resumed handshake too
+	resumedALPS := (stratum == "normal" || stratum == "client-has-no-settings") && isPSKParrot(idi.Name) && ch.Bool(60, "resumed-alps")
+	if resumedALPS {
+		cache := tls.NewLRUClientSessionCache(4)
+		ccfg.ClientSessionCache = cache
+		first := ccfg.Clone()
+		o1 := RunConn(c, w, &ConnSpec{Name: "first", ID: idi.ID, Spec: freshSpec(newSpec), CCfg: first, Peer: PeerRef, RefCfg: cfg, Payload: [][]byte{[]byte("first")}})
+		if !o1.CDone || string(o1.CRead) != "first" {
+			c.Finish(w, true)
+			if c.R.Violation == nil {
+				c.Violate(fmt.Sprintf("alps-handshake-failed cp=%d stratum=%s first-of-history %s", offeredCP, stratum, negErrClass(o1)), "%s: %s", c.R.Class, o1.Describe())
+			}
+			return
+		}
+		cfg.Byz.ClientEESeen, cfg.Byz.ClientEE = false, nil
+		c.R.Class += " second-of-history"
+	}
 	o := RunConn(c, w, sp)
 	c.Finish(w, true)
 	if c.R.Violation != nil {
 		return
 	}
 	c.R.NonTrivial = true
+	if resumedALPS && o.CDone && o.CState.DidResume {
+		c.Probe("alps-on-resumed-handshake")
+	}
 	switch stratum {
 	case "normal", "client-has-no-settings":
 		if !o.CDone || !o.SDone {
